@@ -476,7 +476,14 @@ impl<const PW: u8, const GAIN: i8, const N: usize> ACore<PW, GAIN, N> {
             }
         };
         let mut downlinks = vec![];
-        if self.dead.is_none() {
+        // (an application that holds its downlinks collects them only when it starts every other uplink)
+        let collect = !self.cfg.hold_downlinks
+            || (matches!(ev, AEv::Send { .. })
+                && match before.state {
+                    lorawan_device::verif::VerifMacState::Joined(j) => j.fcnt_up % 2 == 0,
+                    _ => true,
+                });
+        if self.dead.is_none() && collect {
             while let Some(d) = self.dev.take_downlink() {
                 downlinks.push((d.fport, d.data.to_vec()));
             }
